@@ -215,6 +215,11 @@ def run_case(scn, ctx):
             res = w.verify("R", flags=["-dh", "-co", "-h", f])
             require(res.exc is None and res.exit_code == 0, "printed", "verify -dh -co -h %s: %s" % (f, res.brief()), res)
             compare(printed_table(res.stdout), ref, [f], "printed", res, "verify -dh -co")
+            # -ro: the root hash alone, same value
+            res = w.verify("R", flags=["-dh", "-co", "-ro", "-h", f])
+            require(res.exc is None and res.exit_code == 0, "printed", "verify -dh -co -ro -h %s: %s" % (f, res.brief()), res)
+            tab = printed_table(res.stdout)
+            require(tab.get(f, {}) == {"": ref[f][""]}, "printed-root-only", "verify -dh -co -ro %s prints %r, definition of the root hash %r" % (f, tab.get(f), ref[f][""]), res)
         tab1 = seal_and_read(w, "R", fmts, holder)
         compare(tab1, ref, fmts, "manifest", holder[-1], "create")
         # second generation (ascmhl folder now present and ignored): same hashes
